@@ -252,8 +252,9 @@ pub fn gen_forest(rng: &mut Rng, cfg: &DomCfg) -> Forest {
         let mut props: Vec<(String, Variant)> = Vec::new();
         let mut descs = class_props(&class);
         if cfg.strict {
+            // C06's quantifier: serializable (Serializes / SerializesAs), non-migrating, under canonical or alias names
             descs.retain(|p| {
-                matches!(&p.kind, PropertyKind::Canonical { serialization: PropertySerialization::Serializes })
+                matches!(&p.kind, PropertyKind::Canonical { serialization: PropertySerialization::Serializes | PropertySerialization::SerializesAs(_) } | PropertyKind::Alias { .. })
                     && p.name != "Name"
                     && !matches!(&p.data_type, DataType::Value(VariantType::Region3 | VariantType::Region3int16 | VariantType::Vector2int16))
             });
@@ -280,6 +281,15 @@ pub fn gen_forest(rng: &mut Rng, cfg: &DomCfg) -> Forest {
         // a property map has one value per name
         let mut seen = std::collections::BTreeSet::new();
         props.retain(|(k, _)| seen.insert(k.clone()));
+        if cfg.strict {
+            // ... and, inside C06's quantifier, one spelling per logical property, each property in scope on its own
+            let labels: std::collections::BTreeSet<u64> = (1..=n).collect();
+            let mut canon = std::collections::BTreeSet::new();
+            props.retain(|(k, v)| match crate::xmlbin::prop_scope(&class, k, v, &labels) {
+                Some(cn) => canon.insert(cn),
+                None => false,
+            });
+        }
         f.nodes.push(Node { label: i, parent, class, name, props });
     }
     f.roots = match if cfg.strict { 19 } else { rng.below(20) } {
@@ -316,6 +326,44 @@ fn plant_unique_ids(rng: &mut Rng, f: &mut Forest) {
             n.props.push(("UniqueId".into(), Variant::UniqueId(*rng.pick(&pool))));
         }
     }
+}
+
+/// stream `schema` (C06): case i = one instance of the i-th database class (all 797 in turn) carrying EVERY property of its
+/// class chain that lies inside C06's quantifier, each under one spelling (canonical, or an alias a third of the time), plus a
+/// sibling for Ref properties to point at: an exhaustive sweep of the (class, property) pairs with one value each
+pub fn gen_schema_case(rng: &mut Rng, i: u64) -> Vec<String> {
+    let mut classes: Vec<&str> = db().classes.keys().map(|k| k.as_ref()).collect();
+    classes.sort();
+    let class = classes[(i as usize) % classes.len()].to_string();
+    let labels: std::collections::BTreeSet<u64> = [1u64, 2].into_iter().collect();
+    let mut by_canon: std::collections::BTreeMap<String, Vec<(String, Variant)>> = std::collections::BTreeMap::new();
+    for p in class_props(&class) {
+        if p.name == "Name" {
+            continue;
+        }
+        let Some(c) = rbx_xml::verif::find_canonical_property_descriptor(&class, &p.name, db()) else { continue };
+        let v = gen_prop_value(rng, c, 2, true, true);
+        if let Some(cn) = crate::xmlbin::prop_scope(&class, &p.name, &v, &labels) {
+            by_canon.entry(cn).or_default().push((p.name.to_string(), v));
+        }
+    }
+    let mut props = Vec::new();
+    for (cn, mut sp) in by_canon {
+        sp.sort_by(|a, b| a.0.cmp(&b.0));
+        let k = match sp.iter().position(|(n, _)| *n == cn) {
+            Some(k) if sp.len() == 1 || !rng.chance(33) => k,
+            _ => rng.below(sp.len() as u64) as usize,
+        };
+        props.push(sp.swap_remove(k));
+    }
+    let mut f = Forest::default();
+    f.nodes.push(Node { label: 1, parent: 0, class, name: "S".into(), props });
+    f.nodes.push(Node { label: 2, parent: 0, class: "Folder".into(), name: "T".into(), props: vec![] });
+    f.roots = vec![1, 2];
+    f.opts.push(("enc".into(), "IgnoreUnknown".into()));
+    f.opts.push(("dec".into(), "IgnoreUnknown".into()));
+    f.opts.push(("stream".into(), "schema".into()));
+    dom_case_lines(&f)
 }
 
 pub fn gen_dom_case(rng: &mut Rng, stream: &str) -> Vec<String> {
@@ -513,6 +561,12 @@ pub fn gen_cases(seed: u64, n: u64, stream: &str, prefix: &str, f: &mut impl Wri
             for i in 0..n {
                 let mut r = rng.fork();
                 write_case(f, &format!("{prefix}{i}"), &crate::xmlspecgen::gen_foreign_case(&mut r));
+            }
+        }
+        "schema" => {
+            for i in 0..n {
+                let mut r = rng.fork();
+                write_case(f, &format!("{prefix}{i}"), &gen_schema_case(&mut r, i));
             }
         }
         "mut" | "hand" => {
